@@ -26,7 +26,7 @@ import (
 // Server spec: <ip>:<port>/<queryport>/<status>/<version>/<refreshedNs|z>
 func ParseServer(tok string) (server.Server, error) {
 	parts := strings.Split(tok, "/")
-	// optional sixth part p<K>: the record carries K players (p0 … with scores 0 …) in its details
+	// optional sixth part p<K>: the record carries K players (p0 … with scores 0 …) in its details, named after the record (p<j>@<addr>)
 	nPlayers := 0
 	if len(parts) == 6 && strings.HasPrefix(parts[5], "p") {
 		k, err := strconv.Atoi(parts[5][1:])
@@ -55,7 +55,7 @@ func ParseServer(tok string) (server.Server, error) {
 	}
 	s := server.Server{Addr: addr.NewForTesting(net.ParseIP(host), pn), QueryPort: qp, DiscoveryStatus: ds.DiscoveryStatus(st), Version: ver}
 	for j := 0; j < nPlayers; j++ {
-		s.Details.Players = append(s.Details.Players, details.Player{Name: fmt.Sprintf("p%d", j), Score: j})
+		s.Details.Players = append(s.Details.Players, details.Player{Name: fmt.Sprintf("p%d@%s", j, parts[0]), Score: j + pn%7})
 	}
 	if parts[4] != "z" {
 		ns, err := strconv.ParseInt(parts[4], 10, 64)
